@@ -121,12 +121,12 @@ def local_first(ctx):
         E = sym.Engine(ctx, max_paths=20000, incremental=True)
         found = E.explore(h)
         seen = set()
-        for label, m, pc in found:
+        for (label, m, pc), A in list(zip(found, E.autosnaps)):
             if label in seen:
                 continue
             seen.add(label)
-            mk, uk, ls = (choice.value_in_model(m, x) for x in h.state)
-            ctx.report(label, {"slots": [mk[0], uk, ls[0]], "expected": choice.value_in_model(m, h.want)}, replay_ext)
+            mk, uk, ls = (choice.value_in_model(m, x) for x in A["state"])
+            ctx.report(label, {"slots": [mk[0], uk, ls[0]], "expected": choice.value_in_model(m, A["want"])}, replay_ext)
         if E.reached.get("correlated"):
             ctx.twins += 1
         else:
